@@ -6,7 +6,8 @@ PROPS = {
         projects_quick=[("core", ["v0", "v1"])], projects_thorough=[("core", ["v0", "v1", "v2", "w2"])],
         claim="property-based round-trip testing of every built-in scalar marshaler/unmarshaler and of FieldSet/Array/Omittable/Response "
               "compositions against an independent strict RFC 8259 parser; hundreds of thousands (quick) to millions (thorough) of "
-              "generated, boundary-weighted values",
+              "generated, boundary-weighted values."
+              " Payloads of servers generated from /repo's templates (single-file and follow-schema layout) for operations with @defer are read off the multipart/mixed and SSE transports and must decode to what the reference execution prescribes.",
         note="trusts the harness strict JSON parser, encoding/json and strconv as decoders; sampled, not exhaustive",
         technique="property-based testing (rapid): round-trip oracle + strict-JSON validity predicate over generated values",
         quick=dict(shards=8, timeout=300), thorough=dict(shards=16, timeout=3000),
@@ -57,7 +58,8 @@ PROPS["C04"] = dict(
           "error each at their path, their resolvers not called, all other values equal, recover hook once per panic; a serialisation "
           "panic fails the response as a whole with a well-formed error body), followed by the benign request again (the process keeps "
           "serving); for worker_limit 0/1/2; a process crash is a violation (journalled case)."
-          " An operation that has not answered 20 s after a fault was injected is a violation of its own (stable goroutine witness required), and failure storms (many faults in one operation, the same failing value reached through several aliases) are drawn; a Go type used for a user scalar fails on demand in marshal and unmarshal, over POST, GET and websocket.",
+          " An operation that has not answered 20 s after a fault was injected is a violation of its own (stable goroutine witness required), and failure storms (many faults in one operation, the same failing value reached through several aliases) are drawn; a Go type used for a user scalar fails on demand in marshal and unmarshal, over POST, GET and websocket."
+          " A sixth of the cases keep gqlgen's own recover hook (every panic is then 'internal system error' at the path of its own position).",
     note="single faults are exhaustive per generated operation, operations are sampled; reference executor and gqlparser trusted; "
          "subscription events are covered as far as C11 goes (resolver error/panic per operation)",
     technique="fault injection enumerated over generated operations (rapid) with a reference-executor oracle",
@@ -122,7 +124,8 @@ PROPS["C13"] = dict(
           "reference executor's plain result (null propagation stopping at objects whose group delivered data:null) and (2) the same "
           "server's answer to the query with every @defer removed; plus hasNext, exactly-once (path,label), known label, "
           "path-resolves-in-merge-so-far and termination invariants. "
-          "Half of the cases are delivered through gqlgen's multipart/mixed or SSE transport instead of draining the response function: the payloads are parsed off the wire (per part: hasNext true on all but the last, closing boundary / complete event present) and fed to the same oracle",
+          "Half of the cases are delivered through gqlgen's multipart/mixed or SSE transport instead of draining the response function: the payloads are parsed off the wire (per part: hasNext true on all but the last, closing boundary / complete event present) and fed to the same oracle."
+          " A third of the servers have an error presenter of their own; every error of every payload must have gone through it, as in the plain execution.",
     note="which fields are deferred is implementation-defined and is not asserted; completion orders are steered by the harness but sampled",
     technique="metamorphic property-based testing (rapid): @defer-removal relation + reference executor + invariants over the payload history",
     rule="evaluation = one full payload sequence; non-trivial = >=1 incremental payload and (a group nested under another group's payload, "
@@ -141,7 +144,8 @@ PROPS["C14"] = dict(
           "value-2..value+2 and at extremes; metamorphic check that adding selections never lowers the value; the gate is checked through "
           "the executor with the universal resolver's invocation log (over-limit => rejected and nothing invoked); the saturating add is "
           "reached black-box over an exhaustive 13x13 boundary grid. "
-          "A fifth of the cases are operations whose cost is decided by variable values (custom functions multiplying an Int argument that is given through a provided or defaulted variable)",
+          "A fifth of the cases are operations whose cost is decided by variable values (custom functions multiplying an Int argument that is given through a provided or defaulted variable)."
+          " The limit is installed as the fixed extension, per request (Func), through a user extension that embeds the stock one and has an operation-parameter hook of its own, or among other extensions.",
     note="custom functions are restricted to monotone forms (the monotonicity clause is only meaningful for those); an interface that "
          "implements the interface may count as an implementor with default cost (both readings of the docs are accepted)",
     technique="property-based differential testing (rapid) against a reference evaluator + metamorphic monotonicity + exhaustive boundary grid",
@@ -168,7 +172,8 @@ PROPS["C02"] = dict(
           "directives the resolver receives exactly what a directive-free twin field receives, every position that carries a value runs "
           "its directive exactly once and no other position does (omitted/null positions are optional as the option says), and a "
           "directive that fails or panics leaves the resolver uncalled with one error at the guarded position."
-          " The same cases are also sent as HTTP POST requests to a handler that served another request first (state kept between requests shows as a difference from the direct execution).",
+          " The same cases are also sent as HTTP POST requests to a handler that served another request first (state kept between requests shows as a difference from the direct execution)."
+          " Schema defaults spell out nulls inside object literals (an explicit null in a default is not an omission).",
     note="gqlparser validates literals and variables first; where gqlgen/gqlparser are more lenient than the spec the case is in the "
          "lenient class (only 'equal or error' and 'no number silently changed' are asserted there)",
     technique="property-based differential testing (rapid) against a reference coercion algorithm; three-valued expectations",
@@ -188,7 +193,8 @@ PROPS["C15"] = dict(
           "text (seen through the universal resolver's log) or PersistedQueryNotFound (only if the cache does not hold the hash), "
           "mismatches execute and register nothing, and every cache entry satisfies sha256(text)=hash. "
           "The text alphabet contains two texts that differ only in the case of a letter inside a string literal, and the server may cache parsed documents in an lru.LRU beside the APQ cache (as NewDefaultServer does)."
-          " A request may carry a hash with blank text.",
+          " A request may carry a hash with blank text."
+          " JSON bodies are also posted through the UrlEncodedForm transport.",
     note="the alphabet is small by design; the cache is the harness's recording cache (gqlgen's lru is exercised by C03/C07)",
     technique="exhaustive bounded enumeration + model-based state-machine testing (rapid) against a reference model",
     rule="evaluation = one request; a sequence is non-trivial if it contains a registration, a later hash-only hit, and a mismatch or "
@@ -207,7 +213,8 @@ PROPS["C09"] = dict(
           "statement of the negotiation and status rules gives the expected Content-Type, status, refusal of non-queries over GET, "
           "the operation that may run, strict-JSON GraphQL body shape, and 'executed => 200' / 'non-2xx => nothing ran'. "
           "Half of the servers cache parsed documents (lru), and a request may be repeated up to three times in a row: every answer has to satisfy the contract."
-          " Requests may name their document by persisted-query hash (registered earlier in the history or not), with a query cache, and may be repeated.",
+          " Requests may name their document by persisted-query hash (registered earlier in the history or not), with a query cache, and may be repeated."
+          " A GET request may also carry a body of another transport's content type that names a mutation; it is answered from its URL alone.",
     note="application/graphql and urlencoded transports do not negotiate (configured header or application/json), as their code documents",
     technique="model-based property testing (rapid) against an explicit contract model; resolver log as execution witness",
     rule="evaluation = one HTTP request; non-trivial = multi-operation document, non-default Accept, or GET; distinct by the full request",
@@ -225,7 +232,8 @@ PROPS["C10"] = dict(
           "defects incl. 25 hostile map paths); oracle: the recover hook never runs (resolvers never panic here), no panic escapes "
           "ServeHTTP, the answer is a strict-JSON GraphQL response, a private TMPDIR is empty afterwards, oversized bodies run nothing, "
           "and well-formed uploads deliver exact bytes/filename/content type to every mapped path through independently readable readers; structural mutation of a valid map path of the very request (index equal to the list length, shorter lists, wrong kinds, extra / missing segments); and websocket sessions fed frames of any type (text, binary, ping, pong, close) and payload (protocol messages with members of the wrong JSON type, null, truncated, nested thousands deep, random bytes, one byte flipped) under both subprotocols, before and after the handshake: the recover hook never runs, the process lives, every server frame is a JSON message object and a fresh session is acknowledged afterwards."
-          " Invalid documents are also sent twice to a server with a query cache (the second answer must equal the first), and websocket frames are mutated the same way.",
+          " Invalid documents are also sent twice to a server with a query cache (the second answer must equal the first), and websocket frames are mutated the same way."
+          " The streaming transports are registered before POST (as documented), so raw bodies sent with their Accept headers reach them.",
     note="websocket frames are covered by C11's state machine; native byte-level fuzz targets are not part of the quick tier",
     technique="grammar-based and mutation-based property testing (rapid) with a crash/recover-hook/round-trip oracle",
     rule="evaluation = one request; non-trivial = a request with a structural defect that reaches the transport's decoding stage, or a "
@@ -247,7 +255,8 @@ PROPS["C03"] = dict(
           "accepted one produces every hook exactly once per operation / response / root field / field (field positions from the "
           "reference executor), in lifecycle order, first-registered outermost; resolvers as the reference says; no race report. "
           "A third of the histories go through handler.Server with the POST transport instead of the executor API: each request is a JSON body that leaves out the members it does not need, and the damages include a required variable that is left out entirely or sent as null."
-          " The same request histories are also served over the streaming transports (SSE and multipart/mixed, registered before POST as documented) with the same gate and hook-order expectations.",
+          " The same request histories are also served over the streaming transports (SSE and multipart/mixed, registered before POST as documented) with the same gate and hook-order expectations."
+          " The GET transport takes part in the HTTP histories (an operation it selects that is not a query is refused after the gates and before anything of the operation runs), and the pool holds documents with several operations selected by name.",
     note="which requests are invalid is known by construction, never by re-validating in process; interleavings are sampled",
     technique="model-based property testing (rapid) of hook histories + Go race detector",
     rule="evaluation = one request; a history is non-trivial if it has >=1 rejected and >=1 accepted request and >=2 extensions of which "
@@ -313,7 +322,8 @@ PROPS["C11"] = dict(
           "error, the n-th result equals event n of the reference executor; after the connection ends: CloseFunc ran exactly once, no "
           "transport goroutine remains parked (goroutine-dump witness), event sources saw their context cancelled; race detector silent, "
           "a crash (gorilla's concurrent-write panic) is a violation. "
-          "Subscriptions may be endless (their source stays open until its context is cancelled: only a stop or the end of the session ends them), a stop may follow its start with no pause, and a dedicated generator ends sessions from both sides at (nearly) the same instant with swept offsets",
+          "Subscriptions may be endless (their source stays open until its context is cancelled: only a stop or the end of the session ends them), a stop may follow its start with no pause, and a dedicated generator ends sessions from both sides at (nearly) the same instant with swept offsets."
+          " Operations may be refused by an operation-context extension of the server (as a complexity limit does): they execute nothing and are terminated like any other.",
     note="ids are never reused within a session (concurrent duplicate ids are a client protocol violation whose handling is undocumented); "
          "'receives its results' is checked at session end only, with a witness, otherwise inconclusive",
     technique="model-based state-machine property testing (rapid) with history invariants + goroutine-dump witnesses + race detector",
@@ -336,7 +346,8 @@ PROPS["C16"] = dict(
           "types, directive locations/arguments/repeatability); with introspection disabled six query shapes hiding __schema/__type "
           "behind aliases, fragments and variables must yield null plus an error and no schema type name in the data. "
           "With introspection disabled every hidden field must be null with an error of its own, including __type lookups of names that do not exist; and on the federation probes the _service field is checked over histories of requests with introspection enabled and disabled (aliases, fragments, variables)."
-          " Introspection may be disabled again by a later operation-context mutator after an earlier one enabled it (and the reverse): the last writer decides, per request.",
+          " Introspection may be disabled again by a later operation-context mutator after an earlier one enabled it (and the reverse): the last writer decides, per request."
+          " Directives have up to four arguments, several of them with different defaults.",
     note="gqlparser's schema loader is the reference for what the SDL means; the federation _service field is covered by C20",
     technique="round-trip property testing (rapid) with schema generation from a grammar",
     rule="evaluation = one (schema, query shape, enabled/disabled) case; non-trivial = the schema has a deprecated argument or input field "
@@ -355,7 +366,8 @@ PROPS["C17"] = dict(
           "resolver: true; each case runs gqlgen's generator from /repo's working tree in its own process, then go build and go vet of "
           "executor, models, resolver stubs and stub file; a non-zero exit, a panic, or a compile/vet error is a violation. "
           "A third of the cases add an object bound to a user-written Go struct (directly or through autobind) whose fields several schema fields share through fieldName aliases and names that differ only in case."
-          " Inputs may be bound to map[string]interface{}, objects to user-written Go types (explicit binding and autobind, including autobind of the generated package itself), schema files may share one base name in different directories, and every project is generated a second time on its own output.",
+          " Inputs may be bound to map[string]interface{}, objects to user-written Go types (explicit binding and autobind, including autobind of the generated package itself), schema files may share one base name in different directories, and every project is generated a second time on its own output."
+          " Models may be generated into a package of their own (gqlgen's init layout) with schema types named like exported identifiers of the exec file, the user's model package may be named by the tail of its directory (go-um, myum, um.v2), and directives have up to four arguments with defaults.",
     note="96 (quick) / 800 (thorough) points in an enormous space, weighted towards the listed naming patterns; shrinking re-generates",
     technique="property-based testing (rapid) with grammar-based schema generation; oracle = generator exit status + Go type checker",
     rule="evaluation = one generation + build + vet; non-trivial = the schema uses >=3 of: interface-implements-interface, union, recursive "
@@ -372,7 +384,8 @@ PROPS["C18"] = dict(
           "processes (fresh map seeds) with GOMAXPROCS 1/16/2/16/3, started from the project root and from a nested sub-directory, on a "
           "clean tree and on a tree that still contains the previous output (resolver files included); the SHA-256 of every generated "
           "file must be identical across all runs, so regeneration on a freshly generated tree is a no-op."
-          " A third of the multi-file projects keep their schema files under one base name in different directories (merged into one generated file by the follow-schema layouts), each file declaring directives of executable locations.",
+          " A third of the multi-file projects keep their schema files under one base name in different directories (merged into one generated file by the follow-schema layouts), each file declaring directives of executable locations."
+          " A third of the projects generate models into a package of their own; half of those list the exec package in autobind and may name schema types like exported identifiers of the exec file (Config, ResolverRoot, ...).",
     note="map-order bugs surface with probability < 1 per run; five fresh processes per project bound the miss probability, they do not remove it",
     technique="metamorphic property testing (rapid): repeated generation in separate processes, hash-equality oracle",
     rule="evaluation = one generator run; a project is non-trivial if it has >=2 schema files and a follow-schema layout (exec or resolver); "
@@ -394,7 +407,8 @@ PROPS["C19"] = dict(
           "helper declarations are still present in that run's output; every file parses; and when only fields were added to files "
           "holding only resolver methods, a package that compiled before compiles after. "
           "A third of the schemas also have Mutation and Subscription roots (channel-valued resolvers), and resolver.omit_template_comment is drawn."
-          " Doc comments above resolver methods may span several paragraphs; Mutation and Subscription roots, dot imports and omit_template_comment are drawn as well.",
+          " Doc comments above resolver methods may span several paragraphs; Mutation and Subscription roots, dot imports and omit_template_comment are drawn as well."
+          " A quarter of the projects keep their two schema files under one base name in different directories, so the follow-schema layout keeps all resolvers in one file.",
     note="bodies are never empty (gqlgen documents an empty body as 'not implemented'); doc comments are plain // comments",
     technique="model-based state-machine property testing (rapid) with a token-stream round-trip oracle",
     rule="evaluation = one regeneration; a history is non-trivial if a regeneration follows both an edit and an evolution and some body has "
@@ -415,7 +429,8 @@ PROPS["C20"] = dict(
           "entity (or null) must stand there, that a failing representation is reported, that no failure changes another element, and "
           "that the @requires field comes from the same representation; run under the race detector; an unrecovered panic is a violation. "
           "One entity has a composite first key and a second key; a generic generator makes every key field independently present, null or absent; vector x1 generates with federation explicit_requires and a harness-written populator."
-          " A Shipment entity has two @requires selections whose Go names coincide (nested crate { weight } and flat crateWeight) beside a three-level nested one, checked in the default, explicit_requires and computed_requires modes.",
+          " A Shipment entity has two @requires selections whose Go names coincide (nested crate { weight } and flat crateWeight) beside a three-level nested one, checked in the default, explicit_requires and computed_requires modes."
+          " Single-entity resolvers bind the values they receive by the parameter names of the generated EntityResolver interface (read from the generated sources), as a hand-written body does.",
     note="the entity_resolver_multi package option named in the property text does not exist at the pinned commit; batch resolvers come "
          "from the @entityResolver(multi: true) directive; explicit_requires is covered by vector x1 (the harness writes the user's populator, which copies the @requires field "
          "from the representation it is handed); computed_requires by vector x2 (the @requires fields are resolvers that receive the required fields of their representation; the harness's resolvers return their sum, so the response shows which representation was handed over); for batch groups a failing member nulls its whole (type, key) group (the documented GetMany contract)",
